@@ -473,6 +473,13 @@ fn main() {
         },
         Some("corpus-filter") => corpus_filter(),
         Some("check") => std::process::exit(check(&args[2], args.get(3).map(|s| s.as_str()).unwrap_or("quick"))),
+        Some("world") => {
+            // garble-sim world C06 <tier> <idx> : print the world of a C06 case without running it
+            install_panic_hook();
+            let plan = c06::Plan::load(&args[3]).expect("plan");
+            let (w, family, _) = c06::make_world(&plan, seed_from_env(), args[4].parse().unwrap());
+            println!("// family {family}, {} parties\n{}", w.parties.len(), w.program.src);
+        }
         Some("try") => {
             // garble-sim try <file.garble.rs> : compile a program with every option, print the outcomes
             install_panic_hook();
